@@ -36,8 +36,14 @@ func VerifC09Stmt() {
 		vrt.Cover("runtime-error")
 		s.c09Clean("after-failed-statement")
 	}
-	// and once more after a second statement in the same session
-	_, _ = s.Run(bin("+", node.Int(1), node.Int(1)), used)
+	// and once more after a second statement in the same session: a lock-step loop over two
+	// generators, whose contexts must not collide with anything left behind
+	next := node.For{VarRefs: node.List{Elems: []node.Type{nm("k"), nm("l")}},
+		Iterators: node.List{Elems: []node.Type{call("fromto", node.Int(0), node.Int(2)), call("fromto", node.Int(5), node.Int(8))}},
+		Body: bin("+", nm("k"), nm("l"))}
+	v, err2 := s.Run(next, true)
+	got, isInt := v.ToInt()
+	vrt.Assert(err2 == nil && isInt && got == 7, "next-statement-value")
 	s.c09Clean("after-next-statement")
 }
 
